@@ -22,9 +22,9 @@ def rustKeywords : List String :=
    "type", "unsafe", "use", "where", "while", "async", "await", "abstract", "become", "box", "do", "final", "macro", "override",
    "priv", "typeof", "unsized", "virtual", "yield", "try", "_"]
 /-- primitive types written unqualified (as the standard derives do) -/
-def primTypes : List String := ["bool", "usize"]
+def primTypes : List String := []   -- (until F23: `bool`, `usize`; now `::core::primitive::bool`)
 /-- names defined and used inside one generated block only -/
-def blockLocalNames : List String := ["_eq", "_f", "T"]
+def blockLocalNames : List String := []   -- (until F24: `_eq`, `_f`, `T` — visible to the key expressions pasted next to them)
 
 /-- what a template may write literally -/
 def litOK (s : String) : Bool :=
@@ -441,6 +441,7 @@ theorem hyg_ordering : Hyg ordering := by hyg_simp [ordering]
 theorem hyg_someEqual : Hyg someEqual := by hyg_simp [someEqual]
 theorem hyg_orderingEqual : Hyg orderingEqual := by hyg_simp [orderingEqual]
 theorem hyg_coreFn : Hyg coreFn := by hyg_simp [coreFn]
+theorem hyg_primBool : Hyg primBool := by hyg_simp [primBool]
 theorem hyg_refT : Hyg refT := by hyg_simp [refT]
 theorem hyg_helperT : Hyg helperT := by hyg_simp [helperT]
 
@@ -474,8 +475,8 @@ theorem hyg_peExpr (k : SrcKind) (cf : CmpField) : Hyg (peExpr k cf) := by
     cases src <;>
     · simp only
       apply hyg_helperFnBlock _ hid _ _ _ _ _ hyg_helperT
-      · apply hyg_list3 <;> hyg_simp [hyg_refT, hyg_coreFn, hyg_optOrdering, hyg_ordering]
-      · hyg_simp []
+      · apply hyg_list3 <;> hyg_simp [hyg_refT, hyg_coreFn, hyg_optOrdering, hyg_ordering, hyg_primBool]
+      · hyg_simp [hyg_primBool]
       · hyg_simp [hyg_someEqual, hyg_orderingEqual]
       · exact hargs e
   | key src t => exact hyg_ufcs2 _ _ _ rfl (hyg_applyTemplate _ _ hs) (hyg_applyTemplate _ _ ho)
@@ -626,7 +627,7 @@ theorem hyg_cmp (c : CmpImpl) : ∀ ts ∈ c.render, Hyg ts := by
   all_goals
     first
     | (subst hts
-       hyg_simp [hyg_cmpAttrs, hyg_cmpOpPath, hyg_cmpThisTy, hw, hyg_cmpInner, hyg_optOrdering, hyg_ordering])
+       hyg_simp [hyg_cmpAttrs, hyg_cmpOpPath, hyg_cmpThisTy, hw, hyg_cmpInner, hyg_optOrdering, hyg_ordering, hyg_primBool])
     | (rcases hts with rfl | rfl <;>
        hyg_simp [hyg_cmpAttrs, hyg_cmpAllowAttrs, hyg_cmpOpPath, hyg_cmpThisTy, hw, hyg_cmpInner])
 
